@@ -1,6 +1,8 @@
 """C11 - progress events are well-bracketed and the channel is closed exactly once."""
+import json
 import time
 
+import corpus
 import proto
 import vlib
 
@@ -26,17 +28,25 @@ def run(tier):
     for a in abstract:
         cases.extend(proto.render(a, per_class, rnd))
     if tier == "thorough":
-        import corpus
         for p, d, name in corpus.fixture_pairs():
             for entry in ("validate", "compileThenValidate", "validateCompiledCfg"):
                 cases.append({"entry": entry, "chan": rnd.choice(["unbuf", "buf", "bufSmall"]), "profile": p, "data": d,
                               "pclass": "ok", "dclass": "unknown"})
+    # a document beyond any size threshold a wrapper may have (17 MiB, padded with white space): the channel is closed
+    # when the call returns, whatever the call does with such a document
+    big = json.dumps([corpus.node(1, p="x", q="ok")])
+    big = big[:-1] + " " * (17 * 1024 * 1024) + big[-1]
+    for entry in ("validate", "validateCompiledCfg", "compileThenValidate"):
+        cases.append({"entry": entry, "chan": "buf" if entry != "validate" else "unbuf", "profile": corpus.OK_PROFILE, "data": big,
+                      "pclass": "ok", "dclass": "unknown"})
     obs = proto.run_cases("c11", cases)
     lines, byid = proto.to_trace(obs, "C11")
     rejected, tr = proto.validate_trace("c11", lines)
     for rid in sorted(rejected):
         o = byid[rid]
-        V.disagree(proto.failure_key(o), {"observation": o, "case": next(c for c in cases if c["id"] == rid)})
+        case = next(c for c in cases if c["id"] == rid)
+        V.disagree(proto.failure_key(o), {"observation": o, "case": case if len(case["data"]) < 100000 else
+                                          dict(case, data=case["data"][:200] + " ...[%d bytes of white space]... " % len(case["data"]) + case["data"][-20:])})
     # 3. binding self-test: a corrupted trace must be rejected
     selftest(lines, set(rejected))
     rc = V.finish()
